@@ -435,7 +435,7 @@ fn c11_long(len: usize, pat: u32, rep: &mut Report) -> Option<String> {
 
 fn c11_line(tier: Tier) -> usize {
     if tier == Tier::Thorough {
-        11
+        13
     } else {
         9
     }
@@ -761,7 +761,7 @@ pub fn c12_engine() -> SimpleEngine {
 
 fn c20_line(tier: Tier) -> usize {
     if tier == Tier::Thorough {
-        11
+        13
     } else {
         9
     }
@@ -955,7 +955,7 @@ pub fn c20_engine() -> SimpleEngine {
 // =============================================================================================
 // C15
 
-const H: u32 = 600;
+const H: u32 = 900;
 type R = (u32, Option<u32>);
 
 fn lr(r: R) -> LoopRange {
@@ -1209,7 +1209,7 @@ fn c15_ranges(nmax: u32) -> Vec<R> {
 }
 fn c15_n(tier: Tier) -> u32 {
     if tier == Tier::Thorough {
-        13
+        16
     } else {
         8
     }
